@@ -148,6 +148,40 @@ func hC17KindOK(m *ir.Module, id int64, prefix string) bool {
 	return vfAnd(ok, closed)
 }
 
+func hContains(s, sub string) bool {
+	for i := 0; i+len(sub) <= len(s); i++ {
+		if s[i:i+len(sub)] == sub {
+			return true
+		}
+	}
+	return false
+}
+
+// hC17FieldRefs: every carrier definition (!6, !8, !9) that the text of the
+// node refers to is, as the same object, among the node's fields.
+func hC17FieldRefs(m *ir.Module, id int64, text string) bool {
+	node := hC17Def(m, id)
+	if node == nil {
+		return false
+	}
+	fields := hMDFields(node)
+	ok := true
+	for _, n := range [...]int64{6, 8, 9} {
+		if !hContains(text, "!"+string(rune('0'+n))) {
+			continue
+		}
+		def := hC17Def(m, n)
+		found := false
+		for _, f := range fields {
+			if f == interface{}(def) {
+				found = true
+			}
+		}
+		ok = vfAnd(ok, found)
+	}
+	return ok
+}
+
 // VfC17_Kinds: each specialised node kind with a symbolic ID in a small
 // reference graph: parsed (identity of references, kind and distinctness
 // kept, graph closed), printed and parsed again (same), then all IDs cleared
@@ -174,6 +208,7 @@ func VfC17_Kinds() {
 	}
 	vfAssert("C17.kinds.five-defs", len(m.MetadataDefs) == 5)
 	vfAssert("C17.kinds.parsed", hC17KindOK(m, id, hC17Kinds[k].prefix))
+	vfAssert("C17.kinds.field-references-are-the-definitions", hC17FieldRefs(m, id, hC17Kinds[k].text))
 	y := m.String()
 	m2, err2 := ParseString("t.ll", y)
 	vfAssert("C17.kinds.print-accepted", err2 == nil)
@@ -182,6 +217,7 @@ func VfC17_Kinds() {
 	}
 	vfAssert("C17.kinds.print-fixpoint", m2.String() == y)
 	vfAssert("C17.kinds.reparsed", hC17KindOK(m2, id, hC17Kinds[k].prefix))
+	vfAssert("C17.kinds.reparsed-field-references", hC17FieldRefs(m2, id, hC17Kinds[k].text))
 	// renumber from scratch: the node is first in the list of definitions
 	// (smallest ID), so it becomes !0 and the carrier nodes !1..!4
 	for _, def := range m2.MetadataDefs {
